@@ -156,17 +156,19 @@ pub fn core_families(rep: &mut Report, thorough: bool) {
 	run_into(rep, "V", fam::fam_vecs(body), &cfg);
 	run_into(rep, "M", fam::fam_same(body, thorough), &cfg);
 	run_into(rep, "K", fam::fam_kill(thorough), &cfg);
+	run_into(rep, "Q", fam::fam_rekey(), &cfg);
+	run_into(rep, "U", fam::fam_unlock(thorough), &cfg);
 	run_into(rep, "S", fam::fam_readers(thorough), &cfg);
 	run_into(rep, "G", fam::fam_debug(thorough), &cfg);
-	run_into(rep, "T", fam::fam_twice(Body { touch: true, yield_mid: false, panic: false, clear: false }, thorough), &cfg);
+	run_into(rep, "T", fam::fam_twice(Body { touch: true, yield_mid: false, panic: false, clear: false, rekey: false }, thorough), &cfg);
 	if thorough {
 		run_into(rep, "N-flavours", fam::fam_pairs_of(&fam::nested_specs(), "Nf", body, &FLAVOURS[1..]), &cfg);
-		run_into(rep, "E3", fam::fam_e3(Body { touch: true, yield_mid: false, panic: false, clear: false }), &cfg);
-		run_into(rep, "N3", fam::fam_triples(Body { touch: true, yield_mid: false, panic: false, clear: false }), &cfg);
+		run_into(rep, "E3", fam::fam_e3(Body { touch: true, yield_mid: false, panic: false, clear: false, rekey: false }), &cfg);
+		run_into(rep, "N3", fam::fam_triples(Body { touch: true, yield_mid: false, panic: false, clear: false, rekey: false }), &cfg);
 		for pb in [2u32, 3] {
 			let cfg4 = Cfg { max_preemptions: Some(pb), ..cfg.clone() };
-			run_into(rep, &format!("E4-4/pb{}", pb), fam::fam_e4(4, Body { touch: true, yield_mid: false, panic: false, clear: false }), &cfg4);
-			run_into(rep, &format!("E4-5/pb{}", pb), fam::fam_e4(5, Body { touch: true, yield_mid: false, panic: false, clear: false }), &cfg4);
+			run_into(rep, &format!("E4-4/pb{}", pb), fam::fam_e4(4, Body { touch: true, yield_mid: false, panic: false, clear: false, rekey: false }), &cfg4);
+			run_into(rep, &format!("E4-5/pb{}", pb), fam::fam_e4(5, Body { touch: true, yield_mid: false, panic: false, clear: false, rekey: false }), &cfg4);
 		}
 	}
 }
@@ -191,6 +193,9 @@ pub fn check_core(prop: &str, tier: &str) -> ! {
 		if tier == "thorough" {
 			run_into(&mut rep, "N+panic", fam::with_panics(&fam::fam_pairs_of(&fam::nested_specs(), "N", Body::TOUCH, &FLAVOURS)), &cfg);
 		}
+		// "released exactly once when the scoped call ends", also when the call is made (and unwinds) inside a
+		// destructor during an earlier unwind
+		crate::seqchecks::nested_unwind_sweep(&mut rep, tier == "thorough", "C05");
 	}
 	rep.set("rule", "explicit-state search: every interleaving (at raw-lock-operation and mid-section yield granularity) of every program of each listed family, states de-duplicated on a canonical fingerprint; each transition is one real execution step of happylock under the controlled scheduler");
 	rep.finish()
